@@ -32,6 +32,9 @@ func omnibus(run *Run, o Omni, visit Visit) {
 		opts.Inject = bi%3 == 1
 		opts.Gen.Degenerate = bi%3 == 2
 		opts.SecondPath = bi%4 == 2
+		if bi%5 == 1 {
+			opts.Gen.MaxDepth = 3
+		}
 		scs := genScenarios(r, opts)
 		for si, s := range scs {
 			run.Count("scenario_" + s.Kind)
